@@ -11,9 +11,15 @@ Events == [op : {"construct"}, cls : {"Base", "Mid", "Leaf"}, style : {"pos", "k
           \cup [op : {"infer"}, cls : {"P"}, style : {"-"}, n : {0, 1, 2}, T : {"-"}]
           \cup [op : {"clear"}, cls : {"-"}, style : {"-"}, n : {0}, T : {"-"}]
           \cup [op : {"query"}, cls : {"-"}, style : {"-"}, n : {0}, T : {"Base", "Mid", "Leaf", "P"}]
+          \cup [op : {"declare"}, cls : {"-"}, style : {"-"}, n : {0}, T : {"Base", "Mid"}]
+          \cup [op : {"evalvar"}, cls : {"-"}, style : {"-"}, n : 1..2, T : {"-"}]
 Init == s = InitS /\ hist = <<>>
 \* rule inference takes its n bindings from n registered instances
-Enabled(ev) == ev.op = "infer" => ev.n <= Cardinality(Expected("Base", s))
+Enabled(ev) == /\ (ev.op = "infer" => ev.n <= Cardinality(Expected("Base", s)))
+               /\ (ev.op = "declare" => Len(s.decl) < 2)
+               \* a declared variable is evaluated once (re-evaluating one variable object after the registry grew is
+               \* outside C14: its domain is memoised)
+               /\ (ev.op = "evalvar" => ev.n <= Len(s.decl) /\ ~\E j \in 1..Len(hist) : hist[j].op = "evalvar" /\ hist[j].n = ev.n)
 Do(ev) == Enabled(ev) /\ s' = Apply(ev, s) /\ hist' = Append(hist, ev)
 Next == \E ev \in Events : Do(ev)
 Spec == Init /\ [][Next]_vars
@@ -24,5 +30,5 @@ IndicesUnique == \A i, j \in 1..Len(s.reg) : i # j => s.reg[i].idx # s.reg[j].id
 SubtypeMonotone == Expected("Leaf", s) \subseteq Expected("Mid", s) /\ Expected("Mid", s) \subseteq Expected("Base", s)
 SymbolicIsInert == [][hist' # hist /\ hist'[Len(hist')].op = "symconstruct" => s' = s]_vars
 \* export histories that end with a query (the observation that is judged)
-Export == (Len(hist) = MaxLen /\ hist[MaxLen].op = "query") => PrintT(<<"BEH", ToJson(hist)>>)
+Export == (Len(hist) = MaxLen /\ hist[MaxLen].op \in {"query", "evalvar"}) => PrintT(<<"BEH", ToJson(hist)>>)
 =============================================================================
